@@ -170,6 +170,7 @@ def run(ctx):
     ctx.assumptions += ["R (the grammar's rendering) maps back to the tree: C01; redundant parentheses do not change the tree: C08",
                         "constants in generated trees are rendered by the mirror with their source token; constant rendering itself is exercised by the pools"]
     h = ctx.harness("default")
+    field_texts = []
     for name in CONFIGS:
         cases = generate(ctx, name)
         limit = 12000 if ctx.quick else 400000
@@ -181,6 +182,17 @@ def run(ctx):
             text = pygen.realize(c)[0]
             reqs.append({"op": "unparse", "src": text, "expect": " ".join(c["utoks"])})
         ctx.sample({"config": name, "text": reqs[len(reqs) // 2]["src"], "unparser_tokens": reqs[len(reqs) // 2]["expect"]})
+        # the same expressions as f-string replacement fields (the renderer must keep a field whose text starts with a
+        # brace apart from an escaped brace, whatever node kind its root is): every case whose rendering starts with "{"
+        # and a stride of the others, bare and with conversion + nested spec
+        for j, c in enumerate(cases):
+            if c["utoks"] and (c["utoks"][0] == "{" or j % 40 == 0):
+                e = reqs[j]["src"]
+                if "\n" in e or "\\" in e or "'''" in e:
+                    continue
+                field_texts.append("f'''{ %s }'''" % e)
+                if c["utoks"][0] == "{":
+                    field_texts.append("f'''a{ %s !r:>{w}}b'''" % e)
         n = 0
         for c, req, resp in zip(cases, reqs, h.run(reqs)):
             if "tree1" not in resp:
@@ -200,6 +212,11 @@ def run(ctx):
     run_texts(ctx, texts, "constants")
     fs = FSTRINGS + [p.replace("%s", s) for s in FSTRINGS[:40] for p in ("(%s)", "%s.x", "%s + a", "f(%s)", "[%s, %s]")]
     n = run_texts(ctx, fs, "fstrings")
+    field_texts = sorted(set(field_texts))
+    nf = run_texts(ctx, field_texts, "generated_fields")
+    if nf < 200:
+        from vcheck import ToolError
+        raise ToolError("vacuity: only %d generated expressions were accepted as f-string fields" % nf)
     exprs = corpus_expressions(ctx, 6000 if ctx.quick else 200000)
     m = run_texts(ctx, exprs, "corpus")
     from vcheck import ToolError
